@@ -115,10 +115,82 @@ TABLE = {
         'lists are sorted newest first, days walked backwards one calendar day (or a provably absent month/year) at a time, truncated to the newest',
         'durability of the in-place JSON rewrite; time zones of the bounds; the after+limit oldest mode',
     ),
+    'C02': (
+        'symbolic interpretation of schedule.update under all 32 assignments of its five atoms and every iteration order + WSA effect analysis of organize + accessor/reference-kind tables + name-shape agreement between report writers and readers (helper extraction followed) + call-sequence analysis of the reply handler',
+        'names, feedback look-ups and targets reach organize exactly for report entries flagged new; a child is selected iff one of its declared '
+        'inputs is new (self edge excluded), the feedback consumer iff the name is in the table; organize adds every requested target (or all known '
+        'targets for the marker) to todo of every located node and keeps every node with pending work; _priors/as_vref cover all three element and '
+        'reference kinds; every report writer builds run.target.task.alg.sv.value with the dataset\'s own target, matching the field ranges update '
+        'reads; Hand._res calls complete once before update and update only on success with the reply\'s values, job and run id',
+        'transitive closure over time; results arriving while the same unit is queued again; equality with a from-scratch run; the promotion engine; names containing "."',
+    ),
+    'C06': (
+        'symbolic key-term evaluation (Flow) of writers and reader + 64-row truth table of the fallback filter + selection evaluation on permuted samples + lock typestate + freshness (no memoisation) of the read path',
+        'the six-field key is built level by level from ids interned under the previous level with the element\'s own name and version; _update, '
+        '_update_msv and _load build equal key terms from the dataset accessors; the exact key is read only when present, otherwise the candidates are '
+        'exactly those differing at most in the run id, ordered by run and the last taken; no state-vector store happens on the no-candidate path; '
+        'acquire/release bracket every database request on all exits; decode/_get_prime/_load carry no memoising decorator, return what they unpickled '
+        'in the same call from data_dbs/<entry> and keep no decoded object in module/class/instance state',
+        'the pickle round trip and Value.__setstate__; the server side of the upd request; the PostgreSQL _load (version columns not selected: sibling difference noted); concrete histories',
+    ),
+    'C07': (
+        'file typestate of encode (staged -> closed -> digested) + decision-forked path enumeration of move + interprocedural polarity tracking of the novelty flag across the RPC edge + store-after-move dominance + whole-program who-may-write of the catalogue and of files under data_dbs',
+        'the name is built from exactly md5 and sha1 of the closed staged pickle of the value; move tests existence before any file operation, only '
+        'unlinks the staged file when it existed and otherwise moves it once, returning (name, existed); the flag reaches every new_values site with '
+        'polarity "not already stored"; the catalogue store in the Func.set branch (and the post INSERT) happens only after move and stores move\'s name; '
+        'prime entries are stored only there and deleted only in shelve.remove; move receives only encode() pairs; files under data_dbs are mutated only '
+        'by move and by purge.py under its unreferenced-and-non-empty-snapshot guards',
+        'atomicity of shutil.move across file systems, torn writes, digest collisions; provenance of blob names copied between Prime rows in post; concurrent moves of identical content',
+    ),
+    'C08': (
+        'whole-program who-may-write of tables/indices with guard analysis + allocator typestate (store under absence, id = size, paired append) + symbolic max+k evaluation of next + context-sensitive string-shape interpretation of every key predicate against the key grammar derived from the allocator + truth table of the worm guard',
+        'ids are allocated only by util.append (id = current index length, stored and appended together, once) called with matching table/index '
+        'members; DBI.open rebuilds every index sorted by id; next() is max over the run field of all prime keys plus k >= 1 (1 when empty), post uses '
+        'MAX(run_ID) without WHERE; every predicate that selects catalogue keys by caller-supplied name in remove/reset/trace is delimiter-anchored and '
+        'pins the parent id; dissect inverts construct; worm compares fields with equality; update allocates the chain task<-alg<-state<-value and every '
+        'index subscript uses its own position',
+        'one-to-one-ness over concrete histories (induction from the allocator rule); persistence semantics of shelve; names containing a delimiter; direct manipulation of the shelve files',
+    ),
+    'C09': (
+        'symbolic execution of dag.Construct.__init__ with structural terms and callee inlining (Flow) + data-dependence analysis of feedback + closure-shape def-use + oracle evaluation of as_vref per reference kind',
+        'for each factory kind every value of every algorithm gets a node named task.alg.sv.value and every as_vref(<declared inputs>) reference adds '
+        'the child under the parent on every path (never reversed, accessor = the one the element class declares and schedule._priors uses); nothing '
+        'derived from feedback() reaches a child/parent/ancestry/root insertion and every fed-back value is mapped to its consumer; ancestry is a '
+        'work-list closure over parents keyed by full node tags and copied on trimming; at/svt/tt are trimmed at 2/3/1 components with one node per '
+        'trimmed name and every child edge copied; as_vref expands V/SV/ALG references to value level; parents mirror cross-algorithm edges',
+        'functional exactness for every engine shape; factory discovery in pl/scan.py; uniqueness of task-name prefixes; algorithms without values',
+    ),
+    'C10': (
+        'composition of state.dot with the FSM class into a finite abstract machine over (state, transitioning, prior, outstanding steps, doctest switch) explored exhaustively; per-site established-state analysis (dominating guards, guard summaries, chain threading); truth table of the activity predicate',
+        'the edge table equals the documented 11 edges, callbacks resolve, every fired trigger exists, every edge into archiving saves the prior state '
+        'and archiving is left only through the trigger computed from it; every trigger fired by a callback or deferred closure is legal in the '
+        'composed machine; every external trigger site is dominated by an activity/state test, follows a fresh FSM, or is threaded through its submit '
+        'chain; the transitioning setter is never driven from a non-active value; every accepted external trigger settles in running/gitting with '
+        'transitioning active and nothing outstanding (doctest and production branches); is_pipeline_active is exactly running AND active',
+        'rejection without side effects (transitions library contract); failures inside background steps; thread-safety of firing from the navel-gaze thread; concurrent submit requests',
+    ),
+    'C11': (
+        'value-provenance classification of every reference to the idle-worker list + path analysis of dispatch with life-cycle facts + role-based message tracking + factory-kind case analysis of the task-message construction',
+        'a new hand enters _workers only under revision equality, when not listed yet and at most once per path; re-insertions only permute/filter the '
+        'list itself; connectionLost leaves the hand absent on every exit; a task is handed only to a hand popped from _workers together with a message '
+        'popped from _cluster under a min(len,len) bound, only while is_pipeline_active() tested true and no life-cycle trigger fired since; notify '
+        'aborts and closes when not kept and FSM.load dismisses workers after leaving the active state; task messages carry the job tag, the loop target '
+        '(None for analysis), run id 0 for regress else rerunid(job), and the factory pair; db.next() is called exactly when the stored run id is None',
+        'byte-level content of pickled messages; cloud (_agency) placement; strict monotonicity of db.next() (C08); a hand re-registering while it holds a task',
+    ),
+    'C20': (
+        'argument-provenance analysis of every datetime constructed in _delay + exhaustive finite evaluation of the weekly offset (49 cases) + control dependence of the monthly candidate + dominance analysis of defer (due test, analysis test) + who-may-write/who-may-call of the boot token + status typestate complete->defer + must-re-arm path analysis',
+        'year/month/day of each constructed datetime come from one date object (or a clamped/guarded day); the weekly offset lies in [0,7) and lands '
+        'on the requested weekday for all (dow, today); a due event queues its node only in the due branch with the all-targets marker for analyses '
+        'and all known targets otherwise; the boot token list only grows, in _delay under "not yet booted", and every other caller of _delay passes '
+        'consume=False; FOUR obligations fail on the tree and are listed as known findings (day-of-month construction and distance, status left by '
+        'complete excluded by defer, no re-arm when every event was due)',
+        'the designated moment for concrete clocks beyond the structural bounds; reactor timer accuracy; time zones',
+    ),
 }
 
 # properties whose module is finished, reviewed and clean on the tree
-READY = ['C01', 'C03', 'C04', 'C05', 'C12', 'C13', 'C14', 'C15', 'C16', 'C17', 'C18', 'C19']
+READY = sorted(TABLE)
 CLAIMED = sorted(k for k in READY if k in TABLE and os.path.exists(os.path.join(HERE, 'sa', 'rules', k.lower() + '.py')))
 
 PENDING_REASON = (
